@@ -269,10 +269,12 @@ class C20(Property):
     def taint_consistent(r):
         return True
 
-    def requests(self, case):
-        r = run(case['spec'], case['order'], case['min_conf'], case['max_depth'], case.get('upgrade_at'))
-        if r.get('skipped') or r.get('outcome') != 'ok':
+    def requests_obs(self, case, obs):
+        # mining is not deterministic (instances depend on the iteration order of sets): the model is asked about the
+        # values of this very run
+        if obs.get('skipped') or obs.get('outcome') != 'ok':
             return []
+        r = obs['detail']
         rels = []
         by_et = {e['name']: e for e in case['spec']['ets']}
         evs = []
